@@ -246,6 +246,7 @@ func (x *Evaluator) summarise(ne *env, idx int) Val {
 			}
 			if !l.IsFinite {
 				allFinite = false
+				elems = append(elems, l.Prefix...)
 				elems = append(elems, l.Elem)
 			} else {
 				if n >= 0 && n != len(l.Finite) {
@@ -336,16 +337,37 @@ func (x *Evaluator) pathCond(blk, other *ssa.BasicBlock, e *env) (string, bool, 
 		}
 		pol := t
 		// a negated description names the positive condition with the polarity flipped
-		for strings.HasPrefix(desc, "!") {
-			desc = desc[1:]
+		for strings.HasPrefix(desc, "!") || strings.HasPrefix(desc, "data:!") {
+			desc = strings.Replace(desc, "!", "", 1)
 			pol = !pol
 		}
 		lits = append(lits, lit{desc, pol})
 	}
-	if len(lits) != 1 {
+	if len(lits) == 0 {
 		return "", false, false
 	}
-	return lits[0].desc, lits[0].pol, true
+	if len(lits) == 1 {
+		return lits[0].desc, lits[0].pol, true
+	}
+	// several decisions in a row (short-circuit operators): the conjunction of the literals
+	var ds []string
+	data := false
+	for i := len(lits) - 1; i >= 0; i-- {
+		d := lits[i].desc
+		if strings.HasPrefix(d, "data:") {
+			data = true
+			d = strings.TrimPrefix(d, "data:")
+		}
+		if !lits[i].pol {
+			d = "!" + d
+		}
+		ds = append(ds, d)
+	}
+	desc := "(" + strings.Join(ds, " && ") + ")"
+	if data {
+		desc = "data:" + desc
+	}
+	return desc, true, true
 }
 
 // bottomV: no value (the activation has no success return).
@@ -430,7 +452,7 @@ func (x *Evaluator) evalBuiltin(b *ssa.Builtin, call *ssa.Call, e *env, c *evalC
 				if al.IsFinite {
 					return ListV{Elem: joinVals(al.Finite), Origin: "appended"}
 				}
-				return ListV{Elem: al.Elem, Origin: "appended"}
+				return ListV{Elem: joinVals(al.uniform()), Origin: "appended"}
 			}
 			return ListV{Elem: nil, Origin: "appended"}
 		}
@@ -439,17 +461,17 @@ func (x *Evaluator) evalBuiltin(b *ssa.Builtin, call *ssa.Call, e *env, c *evalC
 				return ListV{Finite: append(append([]Val{}, bl.Finite...), al.Finite...), IsFinite: true, Origin: bl.Origin}
 			}
 			var elems []Val
+			var prefix []Val
 			if bl.IsFinite {
-				elems = append(elems, bl.Finite...)
-			} else if bl.Elem != nil {
-				elems = append(elems, bl.Elem)
+				prefix = bl.Finite // known leading elements stay in place
+			} else {
+				prefix = bl.Prefix
+				if bl.Elem != nil {
+					elems = append(elems, bl.Elem)
+				}
 			}
-			if al.IsFinite {
-				elems = append(elems, al.Finite...)
-			} else if al.Elem != nil {
-				elems = append(elems, al.Elem)
-			}
-			return ListV{Elem: joinVals(elems), Origin: bl.Origin}
+			elems = append(elems, al.uniform()...)
+			return ListV{Prefix: prefix, Elem: joinVals(elems), Origin: bl.Origin}
 		}
 		if bok {
 			return bl
@@ -488,6 +510,20 @@ func (x *Evaluator) evalKnown(callee *ssa.Function, call *ssa.Call, idx int, e *
 			}
 			return strV(out), true
 		}
+		if len(l.Prefix) > 0 {
+			// known leading elements, then zero or more further elements each preceded by the separator
+			var out Tmpl
+			for i, el := range l.Prefix {
+				if i > 0 {
+					out = cat(out, sep)
+				}
+				out = cat(out, asTmpl(el))
+			}
+			if l.Elem != nil {
+				out = cat(out, Tmpl{Rep{cat(sep, asTmpl(l.Elem))}})
+			}
+			return strV(out), true
+		}
 		if l.Elem == nil {
 			return strV(Tmpl{}), true
 		}
@@ -523,6 +559,25 @@ func (x *Evaluator) evalKnown(callee *ssa.Function, call *ssa.Call, idx int, e *
 			data = hs[0].Origin
 		}
 		return BoolV{Desc: "HasPrefix(" + t.String() + "," + p + ")", Data: data}, true
+	case "strings.Contains", "strings.ContainsAny", "strings.ContainsRune":
+		t := asTmpl(x.evalC(args[0], e, c))
+		p, ok := litOnly(asTmpl(x.evalC(args[1], e, c)))
+		if full, isLit := litOnly(t); isLit && ok && full != "" {
+			switch full {
+			default:
+				if callee.Name() == "Contains" {
+					return boolConst(strings.Contains(full, p)), true
+				}
+				if callee.Name() == "ContainsAny" {
+					return boolConst(strings.ContainsAny(full, p)), true
+				}
+			}
+		}
+		data := "?"
+		if hs := t.Holes(); len(hs) > 0 {
+			data = hs[0].Origin
+		}
+		return BoolV{Desc: callee.Name() + "(" + t.String() + "," + p + ")", Data: data}, true
 	case "strings.HasSuffix":
 		t := asTmpl(x.evalC(args[0], e, c))
 		p, ok := litOnly(asTmpl(x.evalC(args[1], e, c)))
